@@ -423,99 +423,114 @@ for _cls, _mod in (('Socket', 'socket'), ('AsyncSocket', 'async_socket')):
 # -------------------------------------------------------------------------- _upgrade_websocket
 from .schemas import RESP  # noqa: E402
 SR = Opaque('StartResponse')
-c = REG.contract('socket.Socket._upgrade_websocket', props=['C06', 'C03', 'C05'])
-c.param('self', Ref('Socket')).param('environ', ENV).param('start_response', SR)
-c.returns_cases(('unavailable', "self.server._async['websocket'] is None", RESP),
-                ('handled', "self.server._async['websocket'] is not None", QI))
-c.requires(SOCK_WF, 'socket-wf')
-c.requires('not self.upgrading and not self.closed', 'one-upgrade-at-a-time')
-c.requires('self.server.max_http_buffer_size >= 0', 'limit-nonneg')
-c.raises('OSError', 'self.upgraded', label='already-upgraded-refused',
-         ensures=[('established-websocket-undisturbed', QUIET + ' and ws_log == old(ws_log) and '
-                   'received == old(received) and '
-                   'self.queue.taken == old(self.queue.taken) and '
-                   'self.queue.items == old(self.queue.items)')], props=['C06'])
-c.may_raise('Exception', 'not self.upgraded', label='driver-or-frame-error', ensures=[
-    ('flag-reset', 'not self.upgrading'),
-    ('events-only-grow', 'grows(events, old(events))'),
-    ('spawned-only-grow', 'grows(spawned, old(spawned))'),
-    ('queue-wf', 'self.queue.unf >= len(self.queue.items)'),
-    ('failed-upgrade-consumes-nothing',
-     'implies(not self.upgraded, self.queue.taken == old(self.queue.taken))')], props=['C06'])
-c.ensures('flag-reset', 'not self.upgrading', props=['C06'])
-c.ensures('events-only-grow', 'grows(events, old(events))')
-c.ensures('spawned-only-grow', 'grows(spawned, old(spawned))')
-c.ensures('queue-wf', 'self.queue.unf >= len(self.queue.items)')
-c.ensures('handled-returns-empty-list', "implies(self.server._async['websocket'] is not None, "
-          "result == [])")
-c.ensures('unavailable-is-400', "implies(self.server._async['websocket'] is None, "
-          "result['status'] == '400 BAD REQUEST' and " + QUIET + ")", props=['C06'])
-c.ensures('upgrade-only-via-probe', 'implies(old(self.connected) and self.upgraded, '
-          'handshake_frames(ws_log, len(old(ws_log))))', props=['C06'])
-c.ensures('failed-upgrade-harmless', "implies(old(self.connected) and not self.upgraded and "
-          "self.server._async['websocket'] is not None, "
-          'self.queue.taken == old(self.queue.taken) and '
-          'self.queue.items[0:len(old(self.queue.items))] == old(self.queue.items) and '
-          'self.closing == old(self.closing) and self.closed == old(self.closed) and '
-          'events == old(events) and hresults == old(hresults))', props=['C06', 'C03'])
-c.ensures('direct-websocket-mode', "implies(not old(self.connected) and "
-          "self.server._async['websocket'] is not None, self.connected and self.upgraded)",
-          props=['C06'])
-c.modifies(*WS_MOD)
+for _cls, _mod in (('Socket', 'socket'), ('AsyncSocket', 'async_socket')):
+    c = REG.contract('%s.%s._upgrade_websocket' % (_mod, _cls), props=['C06', 'C03', 'C05'])
+    c.param('self', Ref(_cls)).param('environ', ENV)
+    if _cls == 'Socket':
+        c.param('start_response', SR)
+    c.returns_cases(('unavailable', "self.server._async['websocket'] is None", RESP),
+                    ('handled', "self.server._async['websocket'] is not None",
+                     QI if _cls == 'Socket' else NONE))
+    c.requires(SOCK_WF, 'socket-wf')
+    c.requires('not self.upgrading and not self.closed', 'one-upgrade-at-a-time')
+    c.requires('self.server.max_http_buffer_size >= 0', 'limit-nonneg')
+    c.raises('OSError', 'self.upgraded', label='already-upgraded-refused',
+             ensures=[('established-websocket-undisturbed', QUIET + ' and ws_log == old(ws_log) and '
+                       'received == old(received) and '
+                       'self.queue.taken == old(self.queue.taken) and '
+                       'self.queue.items == old(self.queue.items)')], props=['C06'])
+    c.may_raise('Exception', 'not self.upgraded', label='driver-or-frame-error', ensures=[
+        ('flag-reset', 'not self.upgrading'),
+        ('events-only-grow', 'grows(events, old(events))'),
+        ('spawned-only-grow', 'grows(spawned, old(spawned))'),
+        ('queue-wf', 'self.queue.unf >= len(self.queue.items)'),
+        ('failed-upgrade-consumes-nothing',
+         'implies(not self.upgraded, self.queue.taken == old(self.queue.taken))')], props=['C06'])
+    c.ensures('flag-reset', 'not self.upgrading', props=['C06'])
+    c.ensures('events-only-grow', 'grows(events, old(events))')
+    c.ensures('spawned-only-grow', 'grows(spawned, old(spawned))')
+    c.ensures('queue-wf', 'self.queue.unf >= len(self.queue.items)')
+    if _cls == 'Socket':
+        c.ensures('handled-returns-empty-list', "implies(self.server._async['websocket'] is not "
+                  "None, result == [])")
+    c.ensures('unavailable-is-400', "implies(self.server._async['websocket'] is None, "
+              "result['status'] == '400 BAD REQUEST' and " + QUIET + ")", props=['C06'])
+    c.ensures('upgrade-only-via-probe', 'implies(old(self.connected) and self.upgraded, '
+              'handshake_frames(ws_log, len(old(ws_log))))', props=['C06'])
+    c.ensures('failed-upgrade-harmless', "implies(old(self.connected) and not self.upgraded and "
+              "self.server._async['websocket'] is not None, "
+              'self.queue.taken == old(self.queue.taken) and '
+              'self.queue.items[0:len(old(self.queue.items))] == old(self.queue.items) and '
+              'self.closing == old(self.closing) and self.closed == old(self.closed) and '
+              'events == old(events) and hresults == old(hresults))', props=['C06', 'C03'])
+    c.ensures('direct-websocket-mode', "implies(not old(self.connected) and "
+              "self.server._async['websocket'] is not None, self.connected and self.upgraded)",
+              props=['C06'])
+    c.modifies(*WS_MOD)
 
-# -------------------------------------------------------------------------- handle_get_request
-c = REG.contract('socket.Socket.handle_get_request', props=['C03', 'C05', 'C06', 'C07'])
-c.param('self', Ref('Socket')).param('environ', ENV).param('start_response', SR)
-UPG = 'is_upgrade_request(environ, self.upgrade_protocols)'
-c.returns_cases(('upgrade-unavailable', UPG + " and self.server._async['websocket'] is None", RESP),
-                ('packets', "not (" + UPG + " and self.server._async['websocket'] is None)", QI))
-c.requires(SOCK_WF, 'socket-wf')
-c.requires('not self.upgrading or not ' + UPG, 'one-upgrade-at-a-time')
-c.requires('not self.closed', 'live-session')
-c.requires('self.server.max_http_buffer_size >= 0', 'limit-nonneg')
-c.raises('OSError', UPG + ' and self.upgraded', label='already-upgraded-refused',
-         ensures=[('established-websocket-undisturbed', QUIET + ' and ws_log == old(ws_log) and '
-                   'received == old(received) and '
-                   'self.queue.taken == old(self.queue.taken)')], props=['C06'])
-c.may_raise('Exception', UPG + ' and not self.upgraded', label='driver-or-frame-error', ensures=[
-    ('flag-reset', 'not self.upgrading'),
-    ('events-only-grow', 'grows(events, old(events))'),
-    ('spawned-only-grow', 'grows(spawned, old(spawned))'),
-    ('queue-wf', 'self.queue.unf >= len(self.queue.items)'),
-    ('failed-upgrade-consumes-nothing',
-     'implies(not self.upgraded, self.queue.taken == old(self.queue.taken))')], props=['C06'])
-c.may_raise('QueueEmpty', 'not ' + UPG + ' and not (self.upgrading or self.upgraded)',
-            label='poll-timeout-closes-session', ensures=[
-    ('nothing-taken', 'self.queue.taken == old(self.queue.taken)'),
-    ('queue-wf', 'self.queue.unf >= len(self.queue.items)'),
-    ('events-only-grow', 'grows(events, old(events))'),
-    ('spawned-only-grow', 'grows(spawned, old(spawned))'),
-    ('closed-with-transport-error', "self.closing and implies(not old(self.closing) and "
-     "'disconnect' in self.server.handlers, one_disconnect(events, old(events), "
-     "self.server.handlers['disconnect'], self.sid, 'transport error'))")],
-            props=['C07', 'C05'])
-c.ensures('events-only-grow', 'grows(events, old(events))')
-c.ensures('spawned-only-grow', 'grows(spawned, old(spawned))')
-c.ensures('queue-wf', 'self.queue.unf >= len(self.queue.items)')
-c.ensures('result-packets-wf', 'implies(not (' + UPG + " and self.server._async['websocket'] "
-          "is None), forall(lambda k: result[k] is not None and packet_ok(result[k]), 0, "
-          "len(result)))")
-c.ensures('upgrade-unavailable-is-400', 'implies(' + UPG + " and self.server._async['websocket'] "
-          "is None, result['status'] == '400 BAD REQUEST' and " + QUIET + ')', props=['C06'])
-c.ensures('polls-during-upgrade-get-noop', 'implies(not ' + UPG + ' and '
-          '(old(self.upgrading) or old(self.upgraded)), len(result) == 1 and '
-          'result[0].packet_type == 6 and self.queue.taken == old(self.queue.taken) and '
-          'self.queue.items == old(self.queue.items) and ' + QUIET + ')', props=['C03'])
-c.ensures('poll-returns-what-it-took', 'implies(not ' + UPG + ' and '
-          'not (old(self.upgrading) or old(self.upgraded)), '
-          'self.queue.taken == old(self.queue.taken) + result and '
-          'forall(lambda k: result[k] is not None, 0, len(result)) and ' + FLAGS_SAME +
-          ' and events == old(events) and hresults == old(hresults))', props=['C03'])
-c.ensures('flag-reset', 'implies(' + UPG + ', not self.upgrading)', props=['C06'])
-c.ensures('upgrade-only-via-probe', 'implies(' + UPG + ' and old(self.connected) and '
-          'self.upgraded, handshake_frames(ws_log, len(old(ws_log))))', props=['C06'])
-c.modifies(*WS_MOD)
-
+    # -------------------------------------------------------------------------- handle_get_request
+    c = REG.contract('%s.%s.handle_get_request' % (_mod, _cls), props=['C03', 'C05', 'C06', 'C07'])
+    c.param('self', Ref(_cls)).param('environ', ENV)
+    if _cls == 'Socket':
+        c.param('start_response', SR)
+    UPG = 'is_upgrade_request(environ, self.upgrade_protocols)'
+    if _cls == 'Socket':
+        c.returns_cases(('upgrade-unavailable', UPG + " and self.server._async['websocket'] is None",
+                         RESP),
+                        ('packets', "not (" + UPG + " and self.server._async['websocket'] is None)",
+                         QI))
+    else:       # the asyncio drivers' upgrade call returns None, not an empty packet list
+        c.returns_cases(('upgrade-unavailable', UPG + " and self.server._async['websocket'] is None",
+                         RESP),
+                        ('upgrade-handled', UPG + " and self.server._async['websocket'] is not None",
+                         NONE),
+                        ('packets', "not " + UPG, QI))
+    c.requires(SOCK_WF, 'socket-wf')
+    c.requires('not self.upgrading or not ' + UPG, 'one-upgrade-at-a-time')
+    c.requires('not self.closed', 'live-session')
+    c.requires('self.server.max_http_buffer_size >= 0', 'limit-nonneg')
+    c.raises('OSError', UPG + ' and self.upgraded', label='already-upgraded-refused',
+             ensures=[('established-websocket-undisturbed', QUIET + ' and ws_log == old(ws_log) and '
+                       'received == old(received) and '
+                       'self.queue.taken == old(self.queue.taken)')], props=['C06'])
+    c.may_raise('Exception', UPG + ' and not self.upgraded', label='driver-or-frame-error', ensures=[
+        ('flag-reset', 'not self.upgrading'),
+        ('events-only-grow', 'grows(events, old(events))'),
+        ('spawned-only-grow', 'grows(spawned, old(spawned))'),
+        ('queue-wf', 'self.queue.unf >= len(self.queue.items)'),
+        ('failed-upgrade-consumes-nothing',
+         'implies(not self.upgraded, self.queue.taken == old(self.queue.taken))')], props=['C06'])
+    c.may_raise('QueueEmpty', 'not ' + UPG + ' and not (self.upgrading or self.upgraded)',
+                label='poll-timeout-closes-session', ensures=[
+        ('nothing-taken', 'self.queue.taken == old(self.queue.taken)'),
+        ('queue-wf', 'self.queue.unf >= len(self.queue.items)'),
+        ('events-only-grow', 'grows(events, old(events))'),
+        ('spawned-only-grow', 'grows(spawned, old(spawned))'),
+        ('closed-with-transport-error', "self.closing and implies(not old(self.closing) and "
+         "'disconnect' in self.server.handlers, one_disconnect(events, old(events), "
+         "self.server.handlers['disconnect'], self.sid, 'transport error'))")],
+                props=['C07', 'C05'])
+    c.ensures('events-only-grow', 'grows(events, old(events))')
+    c.ensures('spawned-only-grow', 'grows(spawned, old(spawned))')
+    c.ensures('queue-wf', 'self.queue.unf >= len(self.queue.items)')
+    c.ensures('result-packets-wf', 'implies(not (' + UPG + (" and self.server._async['websocket'] "
+              "is None), " if _cls == 'Socket' else "), ") + "forall(lambda k: result[k] is not None and packet_ok(result[k]), 0, "
+              "len(result)))")
+    c.ensures('upgrade-unavailable-is-400', 'implies(' + UPG + " and self.server._async['websocket'] "
+              "is None, result['status'] == '400 BAD REQUEST' and " + QUIET + ')', props=['C06'])
+    c.ensures('polls-during-upgrade-get-noop', 'implies(not ' + UPG + ' and '
+              '(old(self.upgrading) or old(self.upgraded)), len(result) == 1 and '
+              'result[0].packet_type == 6 and self.queue.taken == old(self.queue.taken) and '
+              'self.queue.items == old(self.queue.items) and ' + QUIET + ')', props=['C03'])
+    c.ensures('poll-returns-what-it-took', 'implies(not ' + UPG + ' and '
+              'not (old(self.upgrading) or old(self.upgraded)), '
+              'self.queue.taken == old(self.queue.taken) + result and '
+              'forall(lambda k: result[k] is not None, 0, len(result)) and ' + FLAGS_SAME +
+              ' and events == old(events) and hresults == old(hresults))', props=['C03'])
+    c.ensures('flag-reset', 'implies(' + UPG + ', not self.upgrading)', props=['C06'])
+    c.ensures('upgrade-only-via-probe', 'implies(' + UPG + ' and old(self.connected) and '
+              'self.upgraded, handshake_frames(ws_log, len(old(ws_log))))', props=['C06'])
+    c.modifies(*WS_MOD)
 
 # ----------------------------------------------------------------------------------- C07 lemmas
 def _c07(eng):
